@@ -123,7 +123,7 @@ def model_check(module, cfg=None, env=None, workers=None, timeout=3600, extra=()
     # the JVM sizes its GC / JIT thread pools by the processor count: tell it how many this run may use,
     # or 16 single-worker oracle shards start 16 x 16 helper threads
     nproc = max(2, int(workers or NCPU))
-    cmd = _java(["-Xmx" + heap, "-XX:ActiveProcessorCount=%d" % nproc]) + [
+    cmd = _java(["-Xmx" + heap, "-XX:ActiveProcessorCount=%d" % nproc, "-Djava.io.tmpdir=" + meta]) + [
         "tlc2.TLC", "-workers", str(workers or NCPU), "-metadir", meta,
                                     "-noGenerateSpecTE", "-config", cfg]
     if coverage:
